@@ -480,6 +480,34 @@ class Gen:
                            ["moment", [["circuitop", sa, {"repetitions": ["i", 2]}]]]], []]
 
     # -- Pauli algebra / results / tableaux -------------------------------------------------------------------
+    def vendor(self):
+        """Vendor gates that are cheap to build, bare or on qubits (optionally with vendor tags)."""
+        t = self.t
+        k = t.weighted([4, 2, 2, 2], "vendor.kind")
+        if k == 0:
+            nq = 1 + t.draw(2, "internal.qubits")
+            kw = [[t.pick(("x", "amp"), "internal.kw"), t.pick(TURNS, "internal.v")]] if t.chance(1, 2, "internal.haskw") else []
+            g = ["internal", t.pick(("CouplerDelay", "G"), "internal.name"),
+                 t.pick((None, "internal_module", "m"), "internal.module"), nq, kw]
+        elif k == 1:
+            nq = 2
+            g = ["g", t.pick(("SYC", "SycamoreGate", "WillowGate"), "vendor.google")]
+        elif k == 2:
+            nq = 1
+            g = ["ionq", t.pick(("GPI", "GPI2"), "ionq1"), t.pick(TURNS, "phi")]
+        else:
+            nq = 2
+            g = (["ionq", "MS", t.pick(TURNS, "phi0"), t.pick(TURNS, "phi1"), t.pick(TURNS, "theta")]
+                 if t.draw(2, "ionq2") == 0 else ["ionq", "ZZ", t.pick(TURNS, "theta")])
+        form = t.weighted([3, 3, 2], "vendor.form")
+        if form == 0:
+            return g
+        qs = [q for q, _ in self.qid_pool(nq, qudits=False)]
+        op = ["op", g, qs]
+        if form == 2:
+            op = ["tagged", op, [["tag", "physz"], ["tag", "calib", "cal"], ["tag", "compress"]][:1 + t.draw(3, "vendor.tags")]]
+        return op
+
     def pauli_string(self, pool=None):
         t = self.t
         if pool is None:
@@ -528,8 +556,8 @@ class Gen:
     # -- top level ---------------------------------------------------------------------------------------------
     KINDS = ("qid", "op", "circuit", "frozen", "circuitop", "shared", "gate", "moment", "mkey", "pstring",
              "psum", "dps", "result", "sympy", "tableau", "cliffgate", "resolver", "sweep", "list", "dict",
-             "duration", "phasor", "coupler", "condition")
-    WEIGHTS = (6, 8, 10, 8, 10, 8, 6, 4, 3, 4, 2, 3, 3, 3, 3, 2, 2, 2, 4, 2, 1, 2, 1, 4)
+             "duration", "phasor", "coupler", "condition", "vendor")
+    WEIGHTS = (6, 8, 10, 8, 10, 8, 6, 4, 3, 4, 2, 3, 3, 3, 3, 2, 2, 2, 4, 2, 1, 2, 1, 4, 4)
 
     def value(self, allow_container=True):
         """(kind, recipe)"""
@@ -594,6 +622,8 @@ class Gen:
             ps = self.pauli_string(self.qid_pool(t.between(1, 3, "phasor.qubits"), qudits=False))
             ps[1] = t.pick((["i", 1], ["i", -1]), "phasor.coef")
             return kind, ["phasor", ps, self.param(EXPONENTS, "exponent_neg"), t.pick(EXPONENTS, "exponent_pos")]
+        if kind == "vendor":
+            return kind, self.vendor()
         if kind == "coupler":
             self.flags.add("cached-hash-qid")
             return kind, ["coupler", ["gq", 0, t.draw(3, "coupler.col")], ["gq", 1, t.draw(3, "coupler.col2")]]
